@@ -51,10 +51,25 @@ def expected_entries(sess):
         if not first:
             out.append(('header', name))
         first = False
-        ops = decode_all(script)
+        ops, tail = decode_with_tail(script)
         for o, d in ops:
             out.append(('op', o, d))
+        if tail:
+            # the rest of a script that cannot be decoded (a push reaching beyond the end) is still what the interpreter reads next - and
+            # fails on: it is part of "the bytes that will be executed" and has a line of its own
+            out.append(('tail', tail))
     return out
+
+
+def decode_with_tail(script):
+    ops, pc = [], 0
+    while pc < len(script):
+        r = get_op(script, pc)
+        if r is None:
+            return ops, script[pc:]
+        o, d, pc = r
+        ops.append((o, d))
+    return ops, b''
 
 
 def parse_print(text):
@@ -103,6 +118,9 @@ def table_matches(rows, exp, pos):
                     return 'table-row-is-not-a-prefix-of-the-decoding: %s' % r[:60]
             elif not op_text_ok(r, e[1], e[2]):
                 return 'table-row-is-not-the-decoding: %s' % r[:60]
+        elif e[0] == 'tail':
+            if e[1].hex() not in r.lower():
+                return 'table-row-is-not-the-undecodable-rest: %s' % r[:60]
         elif not r.lower().startswith(('branch', 'tweak', 'checktaptweak')):
             return 'table-row-is-not-a-commitment-step: %s' % r[:60]
     return None
@@ -166,6 +184,28 @@ def build_sessions(rng, n):
                 tx.wit = None
                 S.append(dict(kind='failing-step/seam', args=['--tx=' + rtx.ser_tx(tx).hex(), '--txin=' + rtx.ser_tx(fund).hex()],
                               scripts=[('scriptSig', ssig), ('scriptPubKey', spk)], commit=0, fail_at=len(decode_all(ssig))))
+        elif r < 0.5 and rng.random() < 0.4:
+            # a script taken from a transaction that ends in the middle of a push: legal bytes, executed up to there, then BAD_OPCODE
+            tail = rng.choice([bytes([2, 0xaa]), bytes([0x4c]), bytes([0x4d, 0xff]), bytes([0x4e, 1, 0, 0]), bytes([5, 1, 2]), bytes([0x4c, 200, 1, 2, 3]), bytes([75])])
+            head = rng.choice([bytes([OP_1]), bytes([OP_1, OP_2, OP_ADD]), bytes([OP_NOP, OP_7]), b''])
+            where = rng.choice(['scriptPubKey', 'scriptPubKey', 'redeem', 'scriptSig'])
+            if where == 'scriptPubKey':
+                ssig, spk = bytes([OP_1]), head + tail
+                scripts = [('scriptSig', ssig), ('scriptPubKey', spk)]
+            elif where == 'redeem':
+                red = (head or bytes([OP_1])) + tail
+                ssig, spk = push_only(red), bytes([OP_HASH160, 20]) + hash160(red) + bytes([OP_EQUAL])
+                scripts = [('scriptSig', ssig), ('scriptPubKey', spk), ('P2SH script', red)]
+            else:
+                ssig, spk = (head or bytes([OP_1])) + tail, bytes([OP_1])
+                scripts = [('scriptSig', ssig), ('scriptPubKey', spk)]
+            fund = rsign.funding_tx(rng, [(10000, spk)])
+            tx = rsign.spending_tx(rng, [(rtx.txid(fund), 0)], nout=1, version=2, locktime=0, sequences=[0xffffffff])
+            tx.vin[0][2] = ssig
+            tx.wit = None
+            sess = dict(kind='undecodable-tail/' + where, args=['--tx=' + rtx.ser_tx(tx).hex(), '--txin=' + rtx.ser_tx(fund).hex()], scripts=scripts, commit=0)
+            sess['fail_at'] = [j for j, e in enumerate(expected_entries(sess)) if e[0] == 'tail'][0]
+            S.append(sess)
         elif r < 0.5:
             # a legacy P2SH spend whose redeem script is EMPTY (legal: nothing more is executed), after other pushes in the scriptSig
             x = rng.choice([bytes([0x51]), bytes([1, 2, 3]), bytes([rng.randrange(17, 0x80)]), bytes(rng.randrange(1, 256) for _ in range(rng.choice([2, 4, 20])))])   # (minimal pushes of true values)
@@ -286,6 +326,12 @@ def worker(job):
                         if l['number'] is not None and l['number'] != j:
                             bad = 'listing-line-number-differs'
                             wit['line'] = j
+                            break
+                    elif e[0] == 'tail':
+                        if e[1].hex() not in l['text'].lower():
+                            bad = 'undecodable-rest-not-listed'
+                            wit['line'] = j
+                            wit['text'] = l['text'][:80]
                             break
                     elif e[0] == 'header':
                         if not l['text'].startswith('<<<') or e[1].lower().replace(' ', '') not in l['text'].lower().replace(' ', ''):
